@@ -11,7 +11,7 @@
    [reach] = reachable with any number of kills/restarts, any interleaving, any number of workers. *)
 From Coq Require Import List NArith Bool Arith.
 From Wpull Require Import Model.Engine Model.EngineSim Proofs.EngineProofs Proofs.EngineRun Proofs.EngineFinal
-  Proofs.EngineOnce Proofs.EngineTerm Proofs.EngineWitness Proofs.EngineResume.
+  Proofs.EngineOnce Proofs.EngineTerm Proofs.EngineWitness Proofs.EngineResume Proofs.EngineBfs Proofs.EngineBfsWitness.
 Import ListNotations.
 Open Scope N_scope.
 
@@ -64,8 +64,8 @@ Print Assumptions C03_resume_terminates_final.
    REFUTED for several workers (C03_union_complete_refuted: the recorded level is the level of
    first discovery, known finding level-first-discovery).  Proved here (_partial): when admission
    does not depend on the discovery path, for every schedule, every number of workers and every
-   kill history.  Missing: one worker with path-dependent admission (needs the FIFO = breadth-first
-   argument; covered by the kill enumeration of the correspondence only). *)
+   kill history; and for ONE worker without any guard (C03_union_complete_one_worker below).  What remains
+   outside is exactly what the refutation shows to be false: several workers with path-dependent admission. *)
 Theorem C03_union_complete_partial :
   forall site host in_scope maxredir starts conc, scope_ext_hyp in_scope ->
   forall s1 s2, (1 <= conc)%nat -> no_fail site maxredir -> path_independent site host in_scope maxredir starts ->
@@ -74,6 +74,30 @@ Theorem C03_union_complete_partial :
     forall e, In e (st_log s1) -> In e (st_log s2).
 Proof. exact union_complete. Qed.
 Print Assumptions C03_union_complete_partial.
+
+(* ONE worker: the FULL union / no-extra clause, without the path-independence guard.  Admission may depend on the level,
+   parent and root recorded at first discovery (depth limits, --no-parent ...): whatever the interleaving of producer and
+   worker and however often and wherever the process is killed (also between two input batches), the runs together make
+   exactly the requests of the uninterrupted crawl, and the finished table has the same rows with the same recorded
+   columns in the same order.  (Proof: the table of a one-worker crawl is the breadth-first list Proofs/EngineBfs.B.) *)
+Theorem C03_union_complete_one_worker :
+  forall site host in_scope maxredir starts, scope_ext_hyp in_scope ->
+  forall s1 s2, no_fail site maxredir ->
+    reach_nc site host in_scope maxredir starts 1 s1 -> quiescent site host in_scope maxredir starts 1 s1 ->
+    reach site host in_scope maxredir starts 1 s2 -> quiescent site host in_scope maxredir starts 1 s2 ->
+    (forall e, In e (st_log s1) <-> In e (st_log s2)) /\ infos (st_tbl s1) = infos (st_tbl s2).
+Proof. exact one_worker_union. Qed.
+Print Assumptions C03_union_complete_one_worker.
+
+Example C03_one_worker_nonvacuous :
+  reach_nc w2_site w2_host w2_scope 20 [1] 1 (get w5_seq) /\ quiescent w2_site w2_host w2_scope 20 [1] 1 (get w5_seq) /\
+  reach w2_site w2_host w2_scope 20 [1] 1 (get w5_final) /\ quiescent w2_site w2_host w2_scope 20 [1] 1 (get w5_final) /\
+  st_mode (get w5_killed) = Down /\
+  map (fun r => (r_url r, r_status r)) (st_tbl (get w5_killed)) = [(1, Done); (2, InProgress); (3, InProgress); (5, Todo)] /\
+  map (fun r => (r_url r, r_status r, ri_level (r_info r))) (st_tbl (get w5_final)) =
+    [(1, Done, 0); (2, Done, 1); (3, Done, 1); (5, Done, 2); (4, Done, 2); (6, Done, 3)] /\
+  length (st_log (get w5_seq)) = 6%nat /\ length (st_log (get w5_final)) = 7%nat.
+Proof. exact one_worker_nonvacuous. Qed.
 
 Theorem C03_union_complete_refuted :
   exists site host in_scope maxredir starts conc s1 s2 e,
